@@ -213,6 +213,10 @@ pub fn check(ctx: &Ctx, c: &Case, case_seed: u64, mode: &str) {
     crate::util::current_case(case_seed, mode);
     let o = execute(c, case_seed, &[]);
     let rep = &ctx.rep;
+    if c.threshold.is_some() {
+        // how the response was built (see `execute`): 0 and 5 = threshold set on the plain response
+        rep.inc(["construction_route:plain", "construction_route:threshold-then-boxed", "construction_route:boxed-then-threshold", "construction_route:threshold-status-with_data-boxed", "construction_route:threshold-boxed-status-boxed", "construction_route:plain"][((case_seed >> 9) % 6) as usize]);
+    }
     let adm = admissible_codings(c.version, c.status, c.te.as_deref(), c.len, c.thr());
     let branch = if c.upgrade {
         "upgrade"
